@@ -27,6 +27,12 @@ fn tagged_t1(n: usize) -> Array1<f64> {
 fn tagged_t2(n: usize, t: usize) -> Array2<f64> {
     Array2::from_shape_fn((n, t), |(i, c)| (i * t + c) as f64)
 }
+/// same cells, stored column-major (contiguous in memory, not in standard order)
+fn tagged_t2_f(n: usize, t: usize) -> Array2<f64> {
+    let mut f = Array2::zeros((t, n));
+    f.assign(&tagged_t2(n, t).t());
+    f.reversed_axes()
+}
 
 /// Decode the original row ids of a (records, targets) pair; Err(description) when a row's cells
 /// disagree or a column is out of place.
@@ -49,11 +55,19 @@ fn decode<D: Dimension + ndarray::RemoveAxis>(
     }
     let mut ids = Vec::with_capacity(n);
     for r in 0..n {
-        let v0 = rec[[r, 0]];
+        // degenerate widths: without feature columns the identity is carried by the targets alone
+        let (v0, w) = if p > 0 {
+            (rec[[r, 0]], p)
+        } else if t > 0 {
+            (*tar.index_axis(Axis(0), r).iter().next().unwrap(), t)
+        } else {
+            ids.push(r);
+            continue;
+        };
         if v0 < 0.0 || v0.fract() != 0.0 {
             return Err(format!("row {r}: cell value {v0} is not a tag"));
         }
-        let id = (v0 as usize) / p;
+        let id = (v0 as usize) / w;
         for j in 0..p {
             if rec[[r, j]] != (id * p + j) as f64 {
                 return Err(format!(
@@ -329,7 +343,15 @@ fn check_fold(n: usize, k: usize, p: usize, t: usize, multi: bool, view: bool, f
 
 /// in-place `iter_fold`
 fn check_iter_fold(n: usize, k: usize, p: usize, t: usize, multi: bool) -> Outcome {
-    let rec = tagged_records(n, p, false);
+    check_iter_fold_layout(n, k, p, t, multi, false, false)
+}
+
+/// in-place `iter_fold`; with column-major records (`rec_f`) or targets (`tar_f`) the documented
+/// panic ("data not stored contiguously and in standard order") is as acceptable as a correct
+/// result - a silently mis-paired fold is not
+fn check_iter_fold_layout(n: usize, k: usize, p: usize, t: usize, multi: bool, rec_f: bool, tar_f: bool) -> Outcome {
+    let rec = tagged_records(n, p, rec_f);
+    let nonstd = (rec_f && !rec.is_standard_layout()) || (tar_f && multi && t >= 2 && n >= 2);
     macro_rules! body {
         ($tar:expr) => {{
             let tar = $tar;
@@ -344,6 +366,12 @@ fn check_iter_fold(n: usize, k: usize, p: usize, t: usize, multi: bool) -> Outco
                 });
             let res = match res {
                 Ok(r) => r,
+                Err(_) if nonstd => {
+                    // documented refusal; the dataset must still be what it was
+                    ensure!(same_bits(ds.records(), &rec) && same_bits(ds.targets(), &tar),
+                        "C01/iter_fold/not-restored-after-refusal", {"n":n,"k":k,"p":p,"t":t});
+                    return held(false, format!("iter_fold refused n={n} k={k} p={p} t={t} rf={rec_f} tf={tar_f}"));
+                }
                 Err(msg) => bail!("C01/iter_fold/panic", {"n":n,"k":k,"p":p,"t":t,"panic":msg}),
             };
             ensure!(res.len() == k, "C01/iter_fold/count", {"n":n,"k":k,"returned":res.len()});
@@ -364,11 +392,11 @@ fn check_iter_fold(n: usize, k: usize, p: usize, t: usize, multi: bool) -> Outco
         }};
     }
     if multi {
-        body!(tagged_t2(n, t));
+        body!(if tar_f { tagged_t2_f(n, t) } else { tagged_t2(n, t) });
     } else {
         body!(tagged_t1(n));
     }
-    held(n % k != 0 || k != n, format!("iter_fold n={n} k={k} p={p} t={t} m={multi}"))
+    held(n % k != 0 || k != n, format!("iter_fold n={n} k={k} p={p} t={t} m={multi} rf={rec_f} tf={tar_f}"))
 }
 
 #[derive(Clone, Copy, Debug, PartialEq)]
@@ -554,6 +582,30 @@ pub fn run(ctx: &Ctx) {
             check_iter_fold(n, k, p, 1, false)
         } else {
             check_iter_fold(n, k, p, v, true)
+        }
+    });
+    // memory layouts the in-place fold documents to refuse, and degenerate widths (no feature
+    // columns / no target columns): refusal or a correct fold, never a mis-paired one
+    ctx.family("iter_fold-layouts", total * 3, |c| {
+        let (n, k) = nk[(c.idx % total) as usize];
+        let v = (c.idx / total) as usize;
+        let (p, t) = (2 + (n + k) % 2, 2 + (n + 2 * k) % 2);
+        c.note("n", json!(n));
+        c.note("k", json!(k));
+        c.note("layout", json!(["targets-column-major", "records-column-major", "both-column-major"][v]));
+        check_iter_fold_layout(n, k, p, t, true, v >= 1, v != 1)
+    });
+    ctx.family("degenerate-widths", total * 4, |c| {
+        let (n, k) = nk[(c.idx % total) as usize];
+        let v = (c.idx / total) as usize;
+        c.note("n", json!(n));
+        c.note("k", json!(k));
+        c.note("variant", json!(["iter_fold-no-features", "iter_fold-no-target-columns", "fold-no-features", "fold-no-target-columns"][v]));
+        match v {
+            0 => check_iter_fold(n, k, 0, 1 + (n + k) % 2, (n + k) % 2 == 1),
+            1 => check_iter_fold(n, k, 1 + (n + k) % 3, 0, true),
+            2 => check_fold(n, k, 0, 1 + (n + k) % 2, (n + k) % 2 == 1, k % 2 == 0, false),
+            _ => check_fold(n, k, 1 + (n + k) % 3, 0, true, k % 2 == 0, false),
         }
     });
     ctx.family("cross_validate", total * 3, |c| {
